@@ -939,77 +939,93 @@ def refChildren (st : St) (win : Id) : Out (St × List Id) := do
 /-- `_unref_children`. -/
 def unrefChildren (cfg : Cfg) (st : St) (cs : List Id) : Out St := cs.foldlM (unrefW cfg) st
 
+/-- The snapshot loop of `_handle_key`, given `_handle_key` itself for the recursive calls. -/
+def keyLoop (recK : St → Id → Out (St × Bool)) (win : Id) : St → List Id → Out (St × Bool)
+  | st, [] => pure (st, false)
+  | st, child :: rest => do
+    let cw ← getW st child
+    if cw.parent ≠ some win then keyLoop recK win st rest        -- closed by a handler in the meantime
+    else do
+      let w ← getW st win
+      if w.focusedChild = some child then keyLoop recK win st rest
+      else do
+        let r ← recK st child
+        if r.2 then pure (r.1, true) else keyLoop recK win r.1 rest
+
+/-- The body of `_handle_key`, given `_handle_key` itself for the recursive calls. -/
+def handleKeyBody (cfg : Cfg) (recK : St → Id → Out (St × Bool)) (st : St) (win : Id) : Out (St × Bool) := do
+  let shown ← isShownW st win
+  if !shown then pure (st, false)
+  else do
+    let st ← refW st win
+    let w ← getW st win
+    let r1 ← match w.children.head? with
+      | some fc => do
+        let fcw ← getW st fc
+        if fcw.stealInput then recK st fc else pure (st, false)
+      | none => pure (st, false)
+    let r2 ← if r1.2 then pure (r1.1, true) else do
+      let w ← getW r1.1 win
+      match w.focusedChild with
+      | some fc => recK r1.1 fc
+      | none => pure (r1.1, false)
+    let r3 ← if r2.2 then pure (r2.1, true) else do
+      let shown ← isShownW r2.1 win
+      if shown then runBinds cfg r2.1 win .key (logKey win) else pure (r2.1, false)
+    let r4 ← if r3.2 then pure (r3.1, true) else do
+      let sn ← refChildren r3.1 win
+      let h ← keyLoop recK win sn.1 sn.2
+      let st ← unrefChildren cfg h.1 sn.2
+      pure (st, h.2)
+    let st ← unrefW cfg r4.1 win
+    pure (st, r4.2)
+
 /-- `_handle_key`. -/
 def handleKey (cfg : Cfg) : Nat → St → Id → Out (St × Bool)
   | 0, _, _ => .fuel
-  | fuel + 1, st, win => do
-    if !(← isShownW st win) then pure (st, false)
-    else do
-      let st ← refW st win
-      let w ← getW st win
-      let (st, done) ← match w.children.head? with
-        | some fc => do
-          let fcw ← getW st fc
-          if fcw.stealInput then handleKey cfg fuel st fc else pure (st, false)
-        | none => pure (st, false)
-      let (st, done) ← if done then pure (st, true) else do
-        let w ← getW st win
-        match w.focusedChild with
-        | some fc => handleKey cfg fuel st fc
-        | none => pure (st, false)
-      let (st, done) ← if done then pure (st, true) else do
-        if (← isShownW st win) then runBinds cfg st win .key (logKey win) else pure (st, false)
-      let (st, done) ← if done then pure (st, true) else do
-        let (st, snap) ← refChildren st win
-        let rec loop : St → List Id → Out (St × Bool)
-          | st, [] => pure (st, false)
-          | st, child :: rest => do
-            let cw ← getW st child
-            if cw.parent ≠ some win then loop st rest        -- closed by a handler in the meantime
-            else do
-              let w ← getW st win
-              if w.focusedChild = some child then loop st rest
-              else do
-                let (st, r) ← handleKey cfg fuel st child
-                if r then pure (st, true) else loop st rest
-        let (st, handled) ← loop st snap
-        let st ← unrefChildren cfg st snap
-        pure (st, handled)
-      let st ← unrefW cfg st win
-      pure (st, done)
+  | fuel + 1, st, win => handleKeyBody cfg (handleKey cfg fuel) st win
 
-/-- `_handle_mouse`: returns a counted reference to the window that took the event. -/
+/-- The snapshot loop of `_handle_mouse`. -/
+def mouseLoop (recM : St → Id → Mouse → Out (St × Option Id)) (win : Id) (info : Mouse) :
+    St → List Id → Out (St × Option Id)
+  | st, [] => pure (st, none)
+  | st, child :: rest => do
+    let cw ← getW st child
+    if cw.parent ≠ some win then mouseLoop recM win info st rest
+    else
+      let cl := info.line - cw.rect.top
+      let cc := info.col - cw.rect.left
+      if !cw.stealInput && (cl < 0 || cl ≥ cw.rect.lines || cc < 0 || cc ≥ cw.rect.cols) then mouseLoop recM win info st rest
+      else do
+        let r ← recM st child { info with line := cl, col := cc }
+        if r.2.isSome then pure r else mouseLoop recM win info r.1 rest
+
+/-- The body of `_handle_mouse`: returns a counted reference to the window that took the event. -/
+def handleMouseBody (cfg : Cfg) (recM : St → Id → Mouse → Out (St × Option Id)) (st : St) (win : Id) (info : Mouse) :
+    Out (St × Option Id) := do
+  let shown ← isShownW st win
+  if !shown then pure (st, none)
+  else do
+    let st ← refW st win
+    let sn ← refChildren st win
+    let r ← mouseLoop recM win info sn.1 sn.2
+    let st ← unrefChildren cfg r.1 sn.2
+    let r2 ← if r.2.isSome then pure (st, r.2) else do
+      let shown ← isShownW st win
+      if shown then do
+        let h ← runBinds cfg st win .mouse (logMouse win info)
+        if h.2 then do
+          let st ← refW h.1 win                 -- ret = tickit_window_ref(win)
+          pure (st, some win)
+        else pure (h.1, none)
+      else pure (st, none)
+    let st ← unrefW cfg r2.1 win
+    pure (st, r2.2)
+
+/-- `_handle_mouse`. -/
 def handleMouse (cfg : Cfg) : Nat → St → Id → Mouse → Out (St × Option Id)
   | 0, _, _, _ => .fuel
-  | fuel + 1, st, win, info => do
-    if !(← isShownW st win) then pure (st, none)
-    else do
-      let st ← refW st win
-      let (st, snap) ← refChildren st win
-      let rec loop : St → List Id → Out (St × Option Id)
-        | st, [] => pure (st, none)
-        | st, child :: rest => do
-          let cw ← getW st child
-          if cw.parent ≠ some win then loop st rest
-          else
-            let cl := info.line - cw.rect.top
-            let cc := info.col - cw.rect.left
-            if !cw.stealInput && (cl < 0 || cl ≥ cw.rect.lines || cc < 0 || cc ≥ cw.rect.cols) then loop st rest
-            else do
-              let (st, r) ← handleMouse cfg fuel st child { info with line := cl, col := cc }
-              if r.isSome then pure (st, r) else loop st rest
-      let (st, r) ← loop st snap
-      let st ← unrefChildren cfg st snap
-      let (st, r) ← if r.isSome then pure (st, r) else do
-        if (← isShownW st win) then do
-          let (st, h) ← runBinds cfg st win .mouse (logMouse win info)
-          if h then do
-            let st ← refW st win                 -- ret = tickit_window_ref(win)
-            pure (st, some win)
-          else pure (st, none)
-        else pure (st, none)
-      let st ← unrefW cfg st win
-      pure (st, r)
+  | fuel + 1, st, win, info => handleMouseBody cfg (handleMouse cfg fuel) st win info
 
 /-- `if(x) tickit_window_unref(x)`. -/
 def unrefOpt (cfg : Cfg) (st : St) : Option Id → Out St
